@@ -134,7 +134,7 @@ Proof.
   unfold buffer_rows at 2. simpl. now rewrite app_nil_r.
 Qed.
 
-Lemma flush_rows_where_new : forall st p, (forall c, c_shard c = None -> p c = false) ->
+Lemma flush_rows_where_new : forall st p, (forall c, c_loc c = LOrdinary -> p c = false) ->
   rows_where p (i_chunks (flush_buffer st)) = rows_where p (i_chunks st).
 Proof.
   intros st p Hp. unfold flush_buffer. destruct (i_buffer st); [reflexivity|].
@@ -168,7 +168,7 @@ Proof.
   - exact H2.
 Qed.
 
-Lemma append_rows_where_new : forall st b p, (forall c, c_shard c = None -> p c = false) ->
+Lemma append_rows_where_new : forall st b p, (forall c, c_loc c = LOrdinary -> p c = false) ->
   rows_where p (i_chunks (append_and_maybe_flush st b)) = rows_where p (i_chunks st).
 Proof.
   intros st b p Hp. unfold append_and_maybe_flush.
@@ -199,7 +199,7 @@ Proof.
 Qed.
 
 Definition side_chunk (s : N) (rows : list row) : list chunk :=
-  match rows with [] => [] | _ => [mkChunk (Some s) rows] end.
+  match rows with [] => [] | _ => [mkChunk (LNew s) rows] end.
 
 Definition with_chunks (st : istate) (extra : list chunk) : istate :=
   mkIS (i_flush_rows st) (i_splits st) (i_buffer st) (i_chunks st ++ extra).
@@ -252,7 +252,7 @@ Proof.
 Qed.
 
 (* per-shard view of the same fact *)
-Lemma in_shard_old : forall s c, c_shard c = None -> in_shard s c = false.
+Lemma in_shard_old : forall s c, c_loc c = LOrdinary -> in_shard s c = false.
 Proof. intros s c H. unfold in_shard. now rewrite H. Qed.
 
 Lemma rows_where_side : forall s a rows,
@@ -366,38 +366,131 @@ Proof.
   apply filter_In in Hx. tauto.
 Qed.
 
-Definition op_rows (o : hop) : list row := match o with HWrite _ b => ib_rows b | _ => [] end.
-
-Lemma hstep_stored : forall st o, stored (fst (hstep st o)) = stored st ++ op_rows o.
+(* ---------- back-fill ---------- *)
+Lemma rows_where_In : forall p cs x,
+  In x (rows_where p cs) <-> exists c, In c cs /\ p c = true /\ In x (c_rows c).
 Proof.
-  intros st o. destruct o as [sid news point|sid p|sid|sid b|]; simpl.
-  - now rewrite app_nil_r.
-  - rewrite app_nil_r. unfold update_split_progress. now destruct (aget N.eqb sid (i_splits st)).
-  - now rewrite app_nil_r.
-  - apply write_stored.
-  - rewrite app_nil_r. apply flush_stored.
+  intros p cs x. unfold rows_where. rewrite in_concat. split.
+  - intros (l & Hl & Hx). apply in_map_iff in Hl. destruct Hl as (c & Hc & Hin). subst l.
+    apply filter_In in Hin. exists c. tauto.
+  - intros (c & Hc & Hp & Hx). exists (c_rows c). split; [|assumption].
+    apply in_map. apply filter_In. tauto.
+Qed.
+
+Lemma rows_where_none : forall p cs, (forall c, In c cs -> p c = false) -> rows_where p cs = [].
+Proof.
+  intros p cs H. unfold rows_where. induction cs as [|c cs IH]; simpl; [reflexivity|].
+  rewrite (H c (or_introl eq_refl)). apply IH. intros c' Hc'. apply H. now right.
+Qed.
+
+(* every back-fill copy lives under a new shard and holds rows of one
+   historical chunk *)
+Lemma backfill_chunks_spec : forall sp news hist c,
+  In c (fst (backfill_chunks sp news hist)) ->
+  is_old c = false /\ exists h, In h hist /\ incl (c_rows c) (c_rows h).
+Proof.
+  intros sp news hist. induction hist as [|h hist IH]; intros c Hc.
+  - simpl in Hc. contradiction.
+  - destruct sp as [p|]; [|simpl in Hc; contradiction].
+    cbn [backfill_chunks] in Hc.
+    destruct (filter (lower_side p) (c_rows h)) as [|l0 lo] eqn:Hlo;
+    destruct (nth_error news 0) as [a0|];
+    destruct (filter (upper_side p) (c_rows h)) as [|u0 up] eqn:Hup;
+    destruct (nth_error news 1) as [a1|];
+    destruct (backfill_chunks (Some p) news hist) as [more o] eqn:Hrec;
+    simpl in Hc; rewrite ?in_app_iff in Hc; simpl in Hc;
+    repeat match goal with H : _ \/ _ |- _ => destruct H as [H|H] end; try contradiction;
+    try (destruct (IH c Hc) as (Ho & h' & Hh' & Hincl);
+         split; [exact Ho | exists h'; split; [now right | exact Hincl]]);
+    try (subst c; split; [reflexivity|]; exists h; split; [now left|];
+         intros x Hx; cbn [c_rows] in Hx;
+         first [rewrite <- Hlo in Hx | rewrite <- Hup in Hx]; apply filter_In in Hx; exact (proj1 Hx)).
+Qed.
+
+Lemma update_progress_chunks : forall st sid p,
+  i_chunks (update_split_progress st sid p) = i_chunks st /\
+  i_buffer (update_split_progress st sid p) = i_buffer st.
+Proof.
+  intros st sid p. unfold update_split_progress. destruct (aget N.eqb sid (i_splits st)); split; reflexivity.
+Qed.
+
+Lemma run_backfill_chunks : forall st sid,
+  i_buffer (fst (run_backfill st sid)) = i_buffer st /\
+  exists cs, i_chunks (fst (run_backfill st sid)) = i_chunks st ++ cs /\
+    forall c, In c cs -> is_old c = false /\
+      exists h, In h (i_chunks st) /\ is_old h = true /\ incl (c_rows c) (c_rows h).
+Proof.
+  intros st sid. unfold run_backfill.
+  destruct (aget N.eqb sid (i_splits st)) as [ss|].
+  - pose proof (backfill_chunks_spec (split_ts (ss_point ss)) (ss_new ss) (filter (is_hist sid) (i_chunks st))) as Hspec.
+    destruct (backfill_chunks (split_ts (ss_point ss)) (ss_new ss) (filter (is_hist sid) (i_chunks st))) as [cs o].
+    destruct (update_progress_chunks st sid PBackfill) as [Hc Hb].
+    simpl. split; [exact Hb|]. exists cs. split; [now rewrite Hc|].
+    intros c Hin. destruct (Hspec c Hin) as (Ho & h & Hh & Hincl).
+    split; [exact Ho|]. apply filter_In in Hh. destruct Hh as [Hh Hist].
+    exists h. split; [exact Hh|]. split; [|exact Hincl].
+    unfold is_hist in Hist. unfold is_old. destruct (c_loc h); try discriminate; reflexivity.
+  - simpl. split; [reflexivity|]. exists []. split; [now rewrite app_nil_r|]. intros c [].
+Qed.
+
+Lemma run_backfill_stored : forall st sid, stored (fst (run_backfill st sid)) = stored st.
+Proof.
+  intros st sid. destruct (run_backfill_chunks st sid) as (Hb & cs & Hc & Hcs).
+  unfold stored, old_rows. rewrite Hb, Hc, rows_where_app.
+  rewrite (rows_where_none is_old cs); [now rewrite app_nil_r|].
+  intros c Hin. now destruct (Hcs c Hin).
+Qed.
+
+Lemma run_backfill_new_In : forall st sid x,
+  In x (new_rows (fst (run_backfill st sid))) -> In x (new_rows st) \/ In x (old_rows st).
+Proof.
+  intros st sid x. destruct (run_backfill_chunks st sid) as (_ & cs & Hc & Hcs).
+  unfold new_rows, old_rows. rewrite Hc, rows_where_app, in_app_iff.
+  intros [H|H]; [now left|]. right.
+  apply rows_where_In in H. destruct H as (c & Hin & _ & Hx).
+  destruct (Hcs c Hin) as (_ & h & Hh & Hold & Hincl).
+  apply rows_where_In. exists h. split; [exact Hh|]. split; [exact Hold|]. now apply Hincl.
+Qed.
+
+Lemma hstep_stored : forall st o, Permutation (stored (fst (hstep st o))) (stored st ++ op_rows o).
+Proof.
+  intros st o. destruct o as [sid news point|sid p|sid|sid b| |sid rows|sid]; simpl.
+  - rewrite app_nil_r. apply Permutation_refl.
+  - rewrite app_nil_r. unfold update_split_progress.
+    destruct (aget N.eqb sid (i_splits st)); apply Permutation_refl.
+  - rewrite app_nil_r. apply Permutation_refl.
+  - rewrite write_stored. apply Permutation_refl.
+  - rewrite app_nil_r, flush_stored. apply Permutation_refl.
+  - unfold stored, old_rows, add_hist. simpl i_chunks. simpl i_buffer.
+    rewrite rows_where_app, rows_where_single. simpl.
+    rewrite <- !app_assoc. apply Permutation_app_head. apply Permutation_app_comm.
+  - rewrite app_nil_r, run_backfill_stored. apply Permutation_refl.
 Qed.
 
 Lemma hstep_new_In : forall st o x,
-  In x (new_rows (fst (hstep st o))) -> In x (new_rows st) \/ In x (op_rows o).
+  In x (new_rows (fst (hstep st o))) -> In x (new_rows st) \/ In x (op_rows o) \/ In x (stored st).
 Proof.
-  intros st o x. destruct o as [sid news point|sid p|sid|sid b|]; simpl.
+  intros st o x. destruct o as [sid news point|sid p|sid|sid b| |sid rows|sid]; simpl.
   - auto.
   - unfold update_split_progress. destruct (aget N.eqb sid (i_splits st)); auto.
   - auto.
-  - apply write_new_In.
+  - intro H. apply write_new_In in H. tauto.
   - unfold new_rows. rewrite flush_rows_where_new; [auto|].
     intros c Hc. unfold is_old. now rewrite Hc.
+  - unfold new_rows, add_hist. simpl i_chunks. rewrite rows_where_app, rows_where_single. simpl.
+    rewrite app_nil_r. auto.
+  - intro H. apply run_backfill_new_In in H. destruct H as [H|H]; [auto|].
+    right. right. unfold stored. apply in_or_app. now left.
 Qed.
 
-(* the old shard holds exactly what was written, in order (flushed chunks
-   followed by the buffer) — whatever the split phases were *)
-Theorem stored_is_written : forall h st, stored (hrun st h) = stored st ++ written_rows h.
+(* the old shard holds exactly what was written or pre-existed, each row once
+   (flushed and historical chunks, then the buffer) — whatever the split phases *)
+Theorem stored_is_written : forall h st, Permutation (stored (hrun st h)) (stored st ++ written_rows h).
 Proof.
   induction h as [|o h IH]; intro st; simpl.
-  - now rewrite app_nil_r.
-  - unfold hrun in *. simpl. rewrite IH, hstep_stored. unfold written_rows. simpl.
-    fold (op_rows o). now rewrite app_assoc.
+  - unfold written_rows. simpl. rewrite app_nil_r. apply Permutation_refl.
+  - unfold hrun in *. simpl. eapply Permutation_trans; [apply IH|].
+    unfold written_rows. simpl. rewrite app_assoc. apply Permutation_app_tail. apply hstep_stored.
 Qed.
 
 (* every row under a new shard is a copy of a row the old shard holds *)
@@ -408,8 +501,11 @@ Proof.
   - auto.
   - unfold hrun in *. simpl in *. apply IH in Hx. destruct Hx as [Hx|Hx]; [|auto].
     apply hstep_new_In in Hx. destruct Hx as [Hx|Hx]; [auto|].
-    right. fold (hrun (fst (hstep st o)) h). rewrite stored_is_written, hstep_stored.
-    rewrite !in_app_iff. auto.
+    right. fold (hrun (fst (hstep st o)) h).
+    eapply Permutation_in; [apply Permutation_sym, stored_is_written|].
+    apply in_or_app. left.
+    eapply Permutation_in; [apply Permutation_sym, hstep_stored|].
+    apply in_or_app. tauto.
 Qed.
 
 (* ------------------------------------------------------------------ *)
@@ -658,29 +754,30 @@ Qed.
 
 (* With every buffered row flushed, while some shard is in DualWrite/Backfill,
    a query outside the known classes returns exactly what the same query
-   returns over the old shard's data alone (= everything written, each row
-   once), for every history of split-state changes, writes and flushes. *)
+   returns over the old shard's data alone (= everything written or
+   pre-existing, each row once), for every history of split-state changes,
+   writes, flushes, historical chunks and back-fill runs. *)
 Theorem history_modulo_known : forall (flush_rows : N) (h : list hop) (q : query),
   let st := hrun (init_state flush_rows) h in
   i_buffer st = [] -> has_active_split st = true ->
   known_class (written_rows h) q = KNone ->
-  old_rows st = written_rows h /\
+  Permutation (old_rows st) (written_rows h) /\
   Permutation (result_rows (query_state st q)) (result_rows (run_query false q [written_rows h])).
 Proof.
   intros fr h q st Hbuf Hact Hk.
-  assert (Hold : old_rows st = written_rows h).
+  assert (Hold : Permutation (old_rows st) (written_rows h)).
   { pose proof (stored_is_written h (init_state fr)) as Hs. fold st in Hs.
     unfold stored in Hs. rewrite Hbuf in Hs. unfold buffer_rows in Hs. simpl in Hs.
     rewrite app_nil_r in Hs. exact Hs. }
   split; [exact Hold|].
   unfold query_state. rewrite Hact. apply modulo_known; [|exact Hk].
-  intro x. unfold scan. rewrite scan_In. fold (old_rows st). fold (new_rows st). rewrite Hold. split.
-  - auto.
-  - intros [Hx|Hx]; [assumption|].
+  intro x. unfold scan. rewrite scan_In. fold (old_rows st). fold (new_rows st). split.
+  - intro Hx. left. eapply Permutation_in; [apply Permutation_sym, Hold | exact Hx].
+  - intros [Hx|Hx]; [eapply Permutation_in; [apply Hold | exact Hx]|].
     apply (new_rows_are_copies h (init_state fr)) in Hx. fold st in Hx.
     destruct Hx as [Hx|Hx]; [inversion Hx|].
-    unfold stored in Hx. rewrite Hbuf, Hold in Hx. unfold buffer_rows in Hx. simpl in Hx.
-    now rewrite app_nil_r in Hx.
+    unfold stored in Hx. rewrite Hbuf in Hx. unfold buffer_rows in Hx. simpl in Hx.
+    rewrite app_nil_r in Hx. eapply Permutation_in; [apply Hold | exact Hx].
 Qed.
 
 (* ------------------------------------------------------------------ *)
@@ -812,6 +909,21 @@ Example nanos_rejected_but_stored :
   let r := hstep (hrun (init_state 1) wit_prefix) (HWrite 1 (mkIBatch 2 TsNanos [rw 50 7 1 10])) in
   snd r = Failed E_SCHEMA /\ old_rows (fst r) = [rw 50 7 1 10] /\ new_rows (fst r) = [].
 Proof. vm_compute. repeat split. Qed.
+
+(* back-fill: a historical chunk of shard 1 is copied, split at the split
+   point, under the new shards; during Backfill SELECT * still returns each
+   row once, COUNT is doubled *)
+Definition wit_backfill : list hop :=
+  [HHist 1 [rw 50 7 1 10; rw 100 7 1 30; rw 150 7 2 40]; HStart 1 [11; 12]%N sp100; HProgress 1 PDual; HBackfill 1].
+
+Example backfill_witness :
+  let st := hrun (init_state 1) wit_backfill in
+  shard_rows st 11 = [rw 50 7 1 10] /\
+  shard_rows st 12 = [rw 100 7 1 30; rw 150 7 2 40] /\
+  has_active_split st = true /\
+  Permutation (result_rows (query_state st (q_all (PRaw true true true)))) (written_rows wit_backfill) /\
+  result_rows (query_state st (q_all PCount)) = [mkRow None None [6]].
+Proof. vm_compute. repeat split. apply Permutation_refl. Qed.
 
 (* split-point decoding: big endian two's complement, exactly 8 bytes *)
 Example split_ts_examples :
